@@ -40,6 +40,61 @@ Proof.
   repeat split; vm_compute; reflexivity.
 Qed.
 
+(* Execution and finalisation cost units committed never exceed their limits, for every operation
+   sequence on a reserve created by SystemLoanFeeReserve::new (any parameters, tip, free credit). *)
+Theorem C06_limits : forall p t free abort r0 os outs r,
+  0 <= exec_limit p -> 0 <= fin_limit p -> 0 <= exec_loan p -> tip_wf t ->
+  reserve_new p t free abort = Some r0 -> Forall op_wf os -> run_ops r0 os = (outs, r) ->
+  exec_c r <= exec_limit p /\ fin_c r <= fin_limit p.
+Proof. exact limits. Qed.
+
+(* the reserve invariant (running balance = owed + free credit + non-contingent locks - deducted, all
+   non-negative, limits, royalty breakdown sums to the royalty total) holds after `new` and is kept by
+   every operation, whatever its Result *)
+Theorem C06_reserve_inv : forall r op o r',
+  apply_op r op = (o, r') -> op_wf op -> Inv r -> Inv r' /\ Static r r'.
+Proof. exact apply_op_inv. Qed.
+
+(* a transaction is classified Commit only if the system loan is fully repaid *)
+Theorem C06_no_commit_with_debt : forall ok r b r',
+  determine_result ok r = (Commit b, r') -> owed r' = 0.
+Proof. exact no_commit_with_debt. Qed.
+
+(* Under TipExact, for a repaid reserve satisfying the invariant: finalize_fees_for_commit never trips
+   its bad-debt / required == 0 / split assertions nor take_by_amount; the amount taken from the locking
+   vaults plus the free credit used equals the total cost, which equals what the running balance
+   deducted; proposer + validator set + burn + royalties equals the same amount and the royalty
+   breakdown sums to the royalty total.
+   PARTIAL: (1) the side condition 0 <= deducted r (non-negative prices and unsigned unit counts) is a
+   hypothesis, not derived from the invariant; (2) an I192/I256 overflow panic (PkOverflow) is not
+   excluded (unreachable for amounts bounded by the XRD supply, not proved). *)
+Theorem C06_collected_equals_cost_partial : forall sh r ok s,
+  Inv r -> EffOk r -> TipExact (cp r) (tp_tip r) -> owed r = 0 -> 0 <= deducted r ->
+  finalize r = Some s ->
+  match distribute sh s (free_credit r) ok with
+  | DPanic k => k = PkOverflow
+  | DOk o =>
+      total_cost s = Some (d_collected o)
+      /\ d_collected o = deducted r
+      /\ bdsum (d_payments o) + d_free_used o = d_collected o
+      /\ 0 <= d_free_used o <= free_credit r
+      /\ d_proposer o + d_validator o + d_burn o + royalty_c r = d_collected o
+      /\ bdsum (d_royalties o) = royalty_c r
+  end.
+Proof. exact distribute_exact. Qed.
+
+(* the loop over the locked fees: what is still required afterwards is max 0 (required - eligible
+   locks), and exactly the difference was collected and recorded as payments (C06_exact_split core) *)
+Theorem C06_exact_split : forall ls ok req col pay refs,
+  NonNegLocks ls -> 0 <= req ->
+  match take_fees ls ok req col pay refs with
+  | inr k => k = PkOverflow
+  | inl None => True
+  | inl (Some (req', col', pay', _)) =>
+      req' = Z.max 0 (req - elig ok ls) /\ col' = col + (req - req') /\ bdsum pay' = bdsum pay + (req - req')
+  end.
+Proof. exact take_fees_spec. Qed.
+
 Example C06_nonvacuous : c06_params <> [] /\ TipExact (hd c06_witness_params c06_params) (TipBasisPoints 33).
 Proof.
   split; [vm_compute; discriminate|].
@@ -48,3 +103,8 @@ Qed.
 
 Print Assumptions C06_genesis_params_exact.
 Print Assumptions C06_inexact_refuted.
+Print Assumptions C06_limits.
+Print Assumptions C06_reserve_inv.
+Print Assumptions C06_no_commit_with_debt.
+Print Assumptions C06_collected_equals_cost_partial.
+Print Assumptions C06_exact_split.
